@@ -150,6 +150,9 @@ pub struct Attr {
     pub name: String,
     pub ty: TypeRef,
     pub required: bool,
+    /// default="..." (false) or fixed="..." (true) value constraint
+    #[serde(default)]
+    pub value_constraint: Option<(bool, String)>,
 }
 
 #[derive(Clone, Debug, Serialize, Deserialize, PartialEq, Eq, Hash, Default)]
@@ -430,9 +433,14 @@ fn print_seq(o: &mut String, s: &Seq, sc: &Scope, ind: usize) {
 fn print_attrs(o: &mut String, attrs: &[Attr], sc: &Scope, ind: usize) {
     let pad = " ".repeat(ind);
     for a in attrs {
+        let vc = match &a.value_constraint {
+            Some((false, v)) => format!(" default=\"{}\"", esc(v)),
+            Some((true, v)) => format!(" fixed=\"{}\"", esc(v)),
+            None => String::new(),
+        };
         let _ = writeln!(
             o,
-            "{pad}<xs:attribute name=\"{}\" type=\"{}\" use=\"{}\"/>",
+            "{pad}<xs:attribute name=\"{}\" type=\"{}\" use=\"{}\"{vc}/>",
             esc(&a.name),
             sc.tref(&a.ty),
             if a.required { "required" } else { "optional" }
